@@ -108,6 +108,7 @@ def run(F, chk):
                     rc.ok(key, b.where(bi), why)
                 else:
                     rc.violation(key, b.where(bi), "slice/index not proven in bounds: " + why)
+    buffer_resize_rule(F, chk)
     # ---------------- R-C11-d (same-crate half; the cross-crate half is the compile-fail witness) ----
     rd = chk.rule("R-C11-d", "T4", "Buffer's cursor fields are written only inside impl Buffer", floor=4)
     for fld in ("memory", "capacity", "position", "end"):
@@ -123,6 +124,39 @@ def run(F, chk):
             rd.violation(key, "", "written outside impl Buffer: %s" % bad)
         else:
             rd.ok(key, "", "%d writer(s), all inside impl Buffer" % n, nontrivial=False)
+
+
+def buffer_resize_rule(F, chk):
+    """R-C11-e: the backing memory of the growable buffer is never cut below the `end` cursor: every
+    truncate/resize of Buffer.memory and every write of Buffer.capacity with value n is dominated by a comparison
+    establishing end <= n, or capacity < n (growth; end <= capacity is the structure's invariant)."""
+    r = chk.rule("R-C11-e", "T5", "Buffer memory is never truncated below the end cursor", floor=2)
+    for p in sorted(F.paths()):
+        if not p.startswith(BUF + "::") or "{closure" in p:
+            continue
+        b = F.body(p)
+        T = bounds.Terms(b)
+        sites = []
+        for bi, t in b.calls():
+            c = callee_of(t)
+            if c.endswith("Vec::<T, A>::truncate") or c.endswith("Vec::<T, A>::resize"):
+                sl = guards.slice_of_operand(b, t["args"][0])
+                if any(f == "memory" for _, f in sl["fields"]):
+                    sites.append((bi, T.term(t["args"][1]), c.split("::")[-1]))
+        for bi, si, s in b.stmts():
+            if "lhs" in s and not isinstance(s["lhs"], int) and s["lhs"]["p"][-1].startswith("f|") and proj_fields(s["lhs"])[-1][2] == "capacity" \
+                    and proj_fields(s["lhs"])[-1][0] == BUF and s["rv"]["k"] == "use":
+                sites.append((bi, T.term(s["rv"]["a"]), "capacity="))
+        for k, (bi, n, what) in enumerate(sites):
+            r.fn(p)
+            FX = bounds.Facts(b, bi)
+            ends = [X for (X, Y) in FX.le if Y == n and X[0] == "place" and "|end" in X[1]]
+            grows = [X for (X, Y) in FX.lt if Y == n and X[0] == "place" and "|capacity" in X[1]]
+            key = "%s|%s#%d" % (p, what, k)
+            if ends or grows:
+                r.ok(key, b.where(bi), "dominated by %s" % ("end <= new size" if ends else "capacity < new size (growth)"))
+            else:
+                r.violation(key, b.where(bi), "the buffer's memory/capacity is set to a size that no dominating comparison relates to the `end` cursor: pending bytes beyond the new size are cut off (and later slicing panics)")
 
 
 def scm_guard(b, bi, kind, t):
